@@ -101,9 +101,20 @@ def run(crate, harnesses, timeout=1800, extra=None, jobs=None):
 
 
 def parse(out):
+    """per-harness results; with -j the blocks of different threads interleave: regroup them by thread"""
+    if re.search(r"(?m)^Thread \d+: ", out):
+        chunks = re.split(r"(?m)^(Thread \d+): ", out)
+        per = {}
+        order = []
+        for i in range(1, len(chunks), 2):
+            t, body = chunks[i], chunks[i + 1]
+            if t not in per:
+                per[t] = ""
+                order.append(t)
+            per[t] += body
+        # a thread runs several harnesses one after the other: keep textual order inside the thread
+        out = "\n".join(per[t] for t in order)
     res = {}
-    cur = None
-    out = re.sub(r"(?m)^Thread \d+: ", "", out)
     blocks = re.split(r"(?m)^Checking harness ", out)
     for b in blocks[1:]:
         name = b.split("...", 1)[0].strip()
@@ -112,6 +123,9 @@ def parse(out):
         mo = re.search(r"VERIFICATION:- (\w+)", b)
         if mo:
             r["status"] = mo.group(1)
+        if "CBMC failed" in b or "out of memory" in b or "CBMC timed out" in b:
+            r["status"] = "UNDECIDED"
+            r["reason"] = "CBMC failed / out of memory"
         mo = re.search(r"\*\* (\d+) of (\d+) failed", b)
         if mo:
             r["failed"], r["checks"] = int(mo.group(1)), int(mo.group(2))
@@ -120,8 +134,6 @@ def parse(out):
             r["time"] = float(mo.group(1))
         for fm in re.finditer(r"Failed Checks: (.*)\n\s*File: \"([^\"]*)\", line (\d+), in (\S+)", b):
             r["failures"].append({"desc": fm.group(1).strip(), "file": fm.group(2), "line": int(fm.group(3)), "fn": fm.group(4)})
-        if "unwinding assertion" in b and "FAILURE" in b and re.search(r"unwinding assertion.*\n.*FAILURE|Status: FAILURE\n.*unwinding", b):
-            r["unwind_failed"] = True
         for fm in re.finditer(r"Check \d+: (\S+)\n\s+- Status: FAILURE\n\s+- Description: \"([^\"]*)\"\n\s+- Location: (\S+)", b):
             r["failures"].append({"desc": fm.group(2), "check": fm.group(1), "loc": fm.group(3)})
         pb = re.search(r"Concrete playback unit test for `[^`]*`:\n```\n(.*?)```", b, re.S)
